@@ -62,6 +62,47 @@ def aggregates(body, adt_path=None, blocks=None):
     return out
 
 
+_NEG = {"Lt": "Ge", "Ge": "Lt", "Gt": "Le", "Le": "Gt", "Eq": "Ne", "Ne": "Eq"}
+_MIRROR = {"Lt": "Gt", "Gt": "Lt", "Le": "Ge", "Ge": "Le", "Eq": "Eq", "Ne": "Ne"}
+
+
+def _norm_cmp(c):
+    """canonical comparison: polarity True (a negated test becomes the complementary operator), a constant operand on the right
+    (`0x16 != x` false  ==  `x == 0x16`)"""
+    if c[0] != "cmp":
+        return c
+    op, a, b, pol, blk = c[1], c[2], c[3], c[4], c[5] if len(c) > 5 else None
+    if pol is False:
+        op, pol = _NEG[op], True
+    sa, sb = T.strip(a), T.strip(b)
+    if (T.fold_int(sa) is not None or (sa[0] == "const")) and not (T.fold_int(sb) is not None or sb[0] == "const"):
+        a, b, op = b, a, _MIRROR[op]
+    return ("cmp", op, a, b, pol, blk)
+
+
+def oriented(c, left):
+    """(op, a, b) of a canonical comparison with the operand satisfying predicate `left` on the left (`needed <= len` is read as
+    `len >= needed`); None when `c` is no comparison or neither operand satisfies it."""
+    if c[0] != "cmp":
+        return None
+    if left(c[2]):
+        return (c[1], c[2], c[3])
+    if left(c[3]):
+        return (_MIRROR[c[1]], c[3], c[2])
+    return None
+
+
+def int_lower_bound(op, k):
+    """Smallest integer admitted by `x op k` when that is a lower bound (x >= k / x > k-... ), else None."""
+    if k is None:
+        return None
+    if op == "Ge":
+        return k
+    if op == "Gt":
+        return k + 1
+    return None
+
+
 def canon_conds(program, conds):
     """Normalise controls() output into canonical predicates:
        ('variant', place_term, VariantName, polarity)
@@ -72,7 +113,7 @@ def canon_conds(program, conds):
     out = []
     for (atom, label, blk) in conds:
         out.extend(canon_cond(program, atom, label, blk))
-    return out
+    return [_norm_cmp(c) for c in out]
 
 
 def canon_cond(program, atom, label, blk=None):
